@@ -73,7 +73,7 @@ Definition llower_rule (r : lrule) : rule :=
   | LRInfty => RInfty
   | LRNaN => RNaN
   | LRBoolAtom => RBoolAtom
-  | LRSymbol => RSymbol false
+  | LRSymbol mf => RSymbol mf
   | LRConstant => RConstViaEval
   | LRPass => RPass
   | LRRewrite t => RFormula [0%nat] t
